@@ -1187,6 +1187,13 @@ func Run(c *ev.Ctx) int {
 			}(sc, how)
 		}
 	}
+	for _, sc := range []bool{false, true} {
+		wg.Add(1)
+		go func(sc bool) {
+			defer wg.Done()
+			refusedPolicyPutLane(c, sc)
+		}(sc)
+	}
 	for _, cc := range []string{"cache-default", "cache-disabled"} {
 		wg.Add(1)
 		go func(cc string) {
